@@ -3,7 +3,7 @@ CONSTANTS
   N = 5
   NMin = 5
   D = 1
-  Vals = {0,1,2,3}
+  Vals = {0,1,3}
   Wts = {0,1,2}
   Export = FALSE
 INVARIANT QuantilesOrdered
